@@ -2648,6 +2648,12 @@ def _chan_cap(it, args, dty, func):
     return _chan(args[0]).cap
 
 
+@model("fibre::mpsc::BoundedAsyncSender::is_empty", "fibre::spsc::BoundedAsyncSender::is_empty", "fibre::mpmc_v2::AsyncSender::is_empty",
+       "fibre::mpsc::BoundedAsyncReceiver::is_empty", "fibre::spsc::BoundedAsyncReceiver::is_empty", "fibre::mpmc_v2::AsyncReceiver::is_empty")
+def _chan_is_empty(it, args, dty, func):
+    return not _chan(args[0]).items
+
+
 @model("fibre::mpsc::BoundedAsyncSender::is_full", "fibre::spsc::BoundedAsyncSender::is_full", "fibre::mpmc_v2::AsyncSender::is_full")
 def _chan_is_full(it, args, dty, func):
     ch = _chan(args[0])
